@@ -21,23 +21,27 @@ def _present(sub):
         sub._mark_present()
 
 
-def fill(msg, attrs):
-    """set on protobuf message `msg` every field the attribute object has set"""
+def fill(msg, attrs, raw=None):
+    """set on protobuf message `msg` every field the attribute object has set.  `raw` optionally maps id(attribute object) to the
+    scalar values the composer handed to its constructor (a peer puts those on the wire, not what the library's object made of them)"""
     desc = msg.DESCRIPTOR
+    given = (raw or {}).get(id(attrs), {})
     for name, v in vars(attrs).items():
         name = name.lstrip("_")
         if v is None:
             continue
+        if name in given and not _is_attrs(v) and not isinstance(v, (list, tuple)):
+            v = given[name]
         if _is_attrs(v):
             if name in desc.fields_by_name:
                 sub = getattr(msg, name)
                 if desc.fields_by_name[name].message_type.name == "Message":
-                    message(sub, v)
+                    message(sub, v, raw)
                 else:
-                    fill(sub, v)
+                    fill(sub, v, raw)
                 _present(sub)
             else:
-                fill(msg, v)               # flattened part (downloadable media)
+                fill(msg, v, raw)          # flattened part (downloadable media)
         elif isinstance(v, (list, tuple)):
             getattr(msg, name).extend(list(v))
         else:
@@ -45,7 +49,7 @@ def fill(msg, attrs):
     return msg
 
 
-def message(msg, attrs):
+def message(msg, attrs, raw=None):
     for name, v in vars(attrs).items():
         name = name.lstrip("_")
         if v is None:
@@ -54,6 +58,6 @@ def message(msg, attrs):
             msg.conversation = v
         else:
             sub = getattr(msg, KIND_FIELD[name])
-            fill(sub, v)
+            fill(sub, v, raw)
             _present(sub)
     return msg
